@@ -562,12 +562,12 @@ def delete_state_sites(ctx):
                 continue
             cb = f.bodies[cn]
             outer = r.outer_fn(cb).name
-            if cb is R:
+            if cb.name == R.name:
                 ctx.ok(f"{short(cn)}", [site(cb, bb)], "incremental runner (before the script, see C05.DELETE-BEFORE-SCRIPT)")
             elif outer in reads:
                 Rerr = variant_region(cb, "Result", "Err")
                 ctx.check(bb in Rerr, f"{short(cn)}", [site(cb, bb)], "the state reader deletes the record outside the decode-error branch")
-            elif cb is main_async or cb is r.main_body():
+            elif cb.name in (main_async.name, r.main_body().name):
                 G = guard_region(cb, lambda d: d[0] == "call" and d[1].endswith("ArgMatches::is_present") and any(("static", s) in d[2][1] or any(a[0] == "static" and a[1].endswith("CLEAN") for a in d[2][1]) for s in ["cli::arg::CLEAN"]), True)
                 ctx.check(bb in G, f"{short(cn)}", [site(cb, bb)], "`main` deletes recorded state outside the --clean branch")
             else:
